@@ -34,6 +34,7 @@ type TimerCase struct {
 	Proc     bool    `json:"process"` // (c) a process with a timer catch event
 	PreTask  bool    `json:"preTask"`
 	SecondAt int     `json:"secondAt"` // (process) a second instance of the same definitions is created through the same builder before this step (-1 never)
+	Nest     int     `json:"nest"` // (process) the body of the process lies inside this many levels of embedded sub-process
 	NoSettle bool    `json:"noSettle"` // the clock is moved without waiting for the timer goroutines to settle (arming races the jumps)
 	def      *schema.TimerEventDefinition
 	defs     *schema.Definitions
@@ -64,13 +65,20 @@ func (t *TimerCase) Prepare() error {
 	g.connect(d, "CT", "T1", nil, -1)
 	g.addNode(&Node{ID: "End", Kind: "end"})
 	g.connect(d, "T1", "End", nil, -1)
+	if t.Nest > 0 {
+		nestBody(d, g, t.Nest)
+	}
 	defs, err := parseDefs(d.XML())
 	if err != nil {
 		return err
 	}
 	t.defs = defs
-	ces := (*defs.Processes())[0].IntermediateCatchEvents()
-	tds := (*ces)[0].TimerEventDefinitionField
+	found, ok := defs.FindBy(schema.ExactId("CT"))
+	ce, ok2 := found.(*schema.IntermediateCatchEvent)
+	if !ok || !ok2 {
+		return fmt.Errorf("timer catch event not found")
+	}
+	tds := ce.TimerEventDefinitionField
 	if len(tds) != 1 {
 		return fmt.Errorf("timer definition not parsed")
 	}
@@ -346,6 +354,9 @@ func genC13(d *Draw) Case {
 				// a second instance of the same definitions, built through the same event-definition builder
 				t.SecondAt = d.N(len(t.Steps))
 			}
+			if d.N(3) == 2 {
+				t.Nest = 1 + d.N(2)
+			}
 		}
 	}
 	if t.Back && (t.HostClk || t.Proc || t.NoSettle) {
@@ -587,6 +598,7 @@ func checkC13(cc Case, r *simrt.Result) *Outcome {
 	probe(o, "host-clock", t.HostClk)
 	probe(o, "process-level", t.Proc)
 	probe(o, "two-instances-one-builder", t.Proc && t.SecondAt >= 0)
+	probe(o, "timer-catch-inside-sub-process", t.Proc && t.Nest > 0)
 	probe(o, "cycle", t.Kind == "cycle")
 	probe(o, "clock-set-back", t.Back)
 	if t.Back {
